@@ -217,6 +217,7 @@ pub fn props_of(case: &Value) -> Vec<&'static str> {
         "syn-raw" => vec!["C20", "C18"],
         "syn-goal" | "syn-rule" => vec!["C19", "C18", "C12", "C14"],
         "syn-altgoal" => vec!["C12", "C18"],
+        "syn-groupgoal" => vec!["C19", "C18"],
         _ => vec!["C18"],
     }
 }
@@ -273,6 +274,18 @@ pub fn replay(case: &Value) -> Vec<Obs> {
             let bad: Vec<String> = tmp.iter().filter(|o| !o.ok).map(|o| o.detail.clone()).collect();
             if bad.is_empty() { obs.push(Obs::ok("C12", "infix-form")); } else { obs.push(Obs::bad("C12", "infix-form", bad.join(" | "))); }
             let mut n = 0; let mut b2 = vec![]; try_all(text, &mut n, &mut b2); finish_c18(&mut obs, n, b2);
+        }
+        "syn-groupgoal" => {
+            // a goal tree written with grouping parentheses (two ways): as a goal and as the body of a rule
+            let ast = norm_goal(&case["ast"]);
+            let alt = case["alt"].as_str().unwrap_or("");
+            for tx in [text, alt] {
+                if tx.is_empty() { continue; }
+                roundtrip(&mut obs, "goal", tx, &Parsed::Goal(ast.clone()), false);
+                let head = json!({"k": "cx", "s": "h", "a": [{"k": "var", "n": 0, "s": "$X"}]});
+                roundtrip(&mut obs, "rule", &format!("h($X) :- {}.", tx), &Parsed::Rule(tm_to_json(&tm_from_json(&head)), ast.clone()), false);
+            }
+            let mut n = 0; let mut b2 = vec![]; try_all(text, &mut n, &mut b2); try_all(alt, &mut n, &mut b2); finish_c18(&mut obs, n, b2);
         }
         "syn-rule" => {
             let want = Parsed::Rule(tm_to_json(&tm_from_json(&case["ast"]["head"])), norm_goal(&case["ast"]["body"]));
